@@ -483,6 +483,7 @@ func (dp *DPoVP) insertConfirms(height uint32, blockHash common.Hash, sigList []
 		}
 	}
 
+	verifhook.Yield("consensus.insertConfirms:between-verify-and-save")
 	return dp.confirmer.SaveConfirm(block, validConfirms)
 }
 
